@@ -6,6 +6,10 @@ CHECKS = {
    technique="TLA+ spec Forwarder (TLC exhaustive safety + liveness) bound to the real ClientWorker by script replay of TLC behaviours and TLC trace validation (ForwarderTrace)",
    text="TLC exhausts every interleaving of worker, dialer, sender, acknowledger, stop callback and a faulty upstream at small constants (safety invariants, EventuallyDelivered and StopTerminates under fairness); the real baseoutput.ClientWorker, rebuilt from /repo with the verif hooks, is driven by the environment projection of TLC-simulated behaviours plus seeded fault scripts through a scripted fake connection, and every recorded trace must be explained event by event by the spec, with all invariants evaluated along the explaining behaviour. Exhaustive for the spec at the MC constants; the code is sampled by scripts, which is what a schedule/fault-sequence property over a four-goroutine component admits.",
    note="Trusts TLC, the fake connection honouring the ClosableClientConnection contract (Close cancels pending I/O), and the hook placement (events are confirmations logged by the goroutine that made the change). A rejection is reported only if a re-run of the same script is rejected again."),
+ "C03": dict(cat="model_checking", ref="5.2", engine="hybridbuffer",
+   technique="TLA+ spec HybridBuffer (TLC exhaustive safety + liveness) bound to the real bufferer by script replay of TLC behaviours and TLC trace validation (HybridBufferTrace) with directory and metric projections at quiescence",
+   text="TLC exhausts every interleaving of Accept/Destroy, the feeder goroutine and an unconstrained consumer (confirm, hand back, stall, stop early) over several generations on one directory at small constants, with UnloadChunk as three steps, and checks conservation (NoSilentLoss), no double confirmation, FIFO, the disk limit with the concurrent-save slack as a history variable, gauge soundness, chunk accounting, AllPersisted and DestroyTerminates under fairness. The real bufferer rebuilt from /repo is driven by the acceptor/consumer projection of TLC-simulated behaviours plus seeded scripts at four (queue, window, byte-limit, directory) settings, with schedule jitter at gates; every recorded trace - hook events of the feeder, Accept and UnloadChunk, harness events of the consumer, the directory listing with sizes and contents and the metric registry after every shutdown - must be explained by the spec.",
+   note="Trusts TLC and the hook placement; the consumer is the harness (contract-abiding by construction); Accept and Destroy are never concurrent. A rejection is reported only if a re-run of the same script is rejected again."),
 }
 NOT_YET = {
 }
